@@ -151,7 +151,7 @@ prop("C20", True, BOTH, BOTH,
 
 
 # --- as-built techniques and texts (override the first-draft strings above) ---
-AS_BUILT = {'C01': ('runtime reference-model monitor over the exhaustive input space (all 2,598,960 hands x all 120 slot orders x 6 entry points) plus two-call histories within every rank multiset; two build profiles', 'Every five-card subset of the deck is driven through all six five-card entry points of the compiled crate in all 120 slot orders (fast leg; the checked leg of quick samples the orders) and each result is compared with an independent rules-of-poker ordinal, which closes the stated quantifier. The monitor also observes that all 7462 values are produced, how many cells of each lookup table were exercised (1287/1287/4888), and ranks every hand right after other hands of the same ranks (call-history independence).'), 'C02': ('runtime reference-model monitor over all 20,358,520 six-card and 133,784,560 seven-card subsets, row-targeting and all-slot-order workloads, twin call histories, state trace when the crate owns statics; two build profiles', 'Every 6- and 7-subset of the deck (canonical slot order) is ranked by the compiled crate and compared with a direct rule-based evaluation of the best hand; seeded slot orders, all four entry points on a seeded share, for every class x every five-slot row a hand whose uniquely best sub-hand sits exactly in that row, one hand per class and every single-suit hand in all 720/5040 slot orders, 32 extra orders for every straight-flush/quads hand, and flush-capable hands ranked right after their suit-swapped twins. Exhaustive in the subset dimension; other slot orders are sampled (stated limit).'), 'C03': ('runtime invariant monitor on the reported witness hand over all 5/6/7-card subsets (membership, distinctness, descending order, re-ranking), class-targeting and all-slot-order sets; two build profiles', None), 'C04': ('runtime oracle monitor: all 2^32 words through one slot, Hamming balls around cards in every slot, every slot-equality pattern x word-class mix, extreme-position duplicates, XOR/sum cancellation families, strong hands in every five-slot row with bad remaining slots, all card-or-blank arrays of sizes 2..4(5); two build profiles', None), 'C06': ('runtime reference-model monitor: all 65,536 values (also converted right after related predecessors) and all 2,598,960 hands in all 120 slot orders, names derived from the rules key by the variant-name grammar, no enumeration member without a value range; two build profiles', None), 'C07': ('runtime order-law monitor over all 2^32 ordered pairs (cmp, partial_cmp, < <= > >=, ==, !=, max, min) with an integer-key embedding that settles transitivity on all triples; conversions repeated in hostile call contexts; all value pairs for the enumerations; two build profiles', None), 'C08': ('runtime metamorphic monitor: model shift per slot, all 24 suit relabellings of every five-card hand in three slot orders through three entry points, three shifts of every six-card and (thorough: every) seven-card hand; two build profiles', None), 'C09': ('runtime metamorphic monitor (no oracle): v7 vs its seven v6, v6 vs its six v5, sub-hands made by slot deletion, through the plain and validated entry points (HandRank and value-and-hand entry points on a fixed quarter); single-suit hands in all slot orders; twin call histories; two build profiles', None), 'C10': ('runtime reference-model monitor: all 2^32 words through the card filter, 52 constants, 70 constructor pairs, all accessors, interleaved word/card call histories; two build profiles', None), 'C11': ('runtime reference-model monitor: 52x52 card order, sorting vs an independent insertion sort on all arrangements of a hostile 8-word alphabet, all word pairs one or two bits apart, seeded hands; two build profiles; Miri smoke leg', None), 'C12': ('runtime reference-model monitor: all 1,112,064 Unicode scalars through the symbol tables and inside hand texts of every size; structured, column-aligned, shortest-by-token-length-pattern, long and seeded texts and look-alike token sequences through every parser under catch_unwind; two build profiles; Miri smoke leg', None), 'C13': ('runtime reference-model monitor: four predicates on all 2,598,960 hands in all 120 slot orders vs suits/ranks by the rules and vs the ranked category; two build profiles', None), 'C14': ('runtime reference-model monitor: all 2^32 words word->bit, all 1..4(5)-bit, field-structured and seeded 64-bit values plus 4e10 (thorough 6e11) uniform values bit->word, 104 constants, interleaved call histories; two build profiles', None), 'C15': ('runtime model-based history monitor: peel sequences to exhaustion vs bit arithmetic; set algebra on structured and seeded sets; hands and texts (all Unicode separators, up to 240 tokens) to sets; two build profiles', None), 'C16': ('runtime reference-model monitor over all one-/two-(three-)bit sets, card bits x every subset of the non-card bits, field-structured sets, seeded sets of every population count, each converted twice in a row, under catch_unwind; two build profiles', None), 'C17': ('runtime reference-model monitor over all 2,652 ordered pairs and all 2,652 x 2,652 two-call histories, chains of five suit shifts, every constructor of the hand (incl. setter-built), oracle in integer half-points; two build profiles', None), 'C18': ('runtime invariant check at a quiescent point on constant data: every table entry vs the set of combinations it should enumerate; Deck::get on index classes (incl. indexes that wrap under small multipliers and field-structured indexes) and two-call histories; two build profiles', None), 'C19': ('runtime history monitor against an array model, compared after every operation: unique-word, repeated-word, card-shaped-word, consistently-marked, rank-completing and real-card histories; every five-card hand through every constructor; every selection tuple on class-covering containers; two build profiles; Miri smoke leg', None), 'C20': ('runtime reference-model monitor: 52 cards x all 121 mark sequences, accessors, strip, order vs all unmarked and marked words; two build profiles', None)}
+AS_BUILT = {'C01': ('runtime reference-model monitor over the exhaustive input space (all 2,598,960 hands x all 120 slot orders x 6 entry points) plus two-call histories within every rank multiset; two build profiles', 'Every five-card subset of the deck is driven through all six five-card entry points of the compiled crate in all 120 slot orders (fast leg; the checked leg of quick samples the orders) and each result is compared with an independent rules-of-poker ordinal, which closes the stated quantifier. The monitor also observes that all 7462 values are produced, how many cells of each lookup table were exercised (1287/1287/4888), and ranks every hand right after other hands of the same ranks (call-history independence).'), 'C02': ('runtime reference-model monitor over all 20,358,520 six-card and 133,784,560 seven-card subsets, row-targeting and all-slot-order workloads, twin call histories, state trace when the crate owns statics; two build profiles', 'Every 6- and 7-subset of the deck (canonical slot order) is ranked by the compiled crate and compared with a direct rule-based evaluation of the best hand; seeded slot orders, all four entry points on a seeded share, for every class x every five-slot row a hand whose uniquely best sub-hand sits exactly in that row, one hand per class and every single-suit hand in all 720/5040 slot orders, 32 extra orders for every straight-flush/quads hand, and flush-capable hands ranked right after their suit-swapped twins. Exhaustive in the subset dimension; other slot orders are sampled (stated limit).'), 'C03': ('runtime invariant monitor on the reported witness hand over all 5/6/7-card subsets (membership, distinctness, descending order, re-ranking), class-targeting and all-slot-order sets; two build profiles', None), 'C04': ('runtime oracle monitor: all 2^32 words through one slot, Hamming balls around cards in every slot, every slot-equality pattern x word-class mix, extreme-position duplicates, XOR/sum cancellation families, strong hands in every five-slot row with bad remaining slots, all card-or-blank arrays of sizes 2..4(5); two build profiles', None), 'C06': ('runtime reference-model monitor: all 65,536 values (also converted right after related predecessors) and all 2,598,960 hands in all 120 slot orders, names derived from the rules key by the variant-name grammar, no enumeration member without a value range; every straight-flush-capable six/seven-card hand through hand_rank() in directed slot orders (single-suit sixes in all 720); two build profiles', None), 'C07': ('runtime order-law monitor over all 2^32 ordered pairs (cmp, partial_cmp, < <= > >=, ==, !=, max, min) with an integer-key embedding that settles transitivity on all triples; conversions repeated in hostile call contexts; all value pairs for the enumerations; two build profiles', None), 'C08': ('runtime metamorphic monitor: model shift per slot, all 24 suit relabellings of every five-card hand in three slot orders through three entry points, three shifts of every six-card and (thorough: every) seven-card hand; two build profiles', None), 'C09': ('runtime metamorphic monitor (no oracle): v7 vs its seven v6, v6 vs its six v5, sub-hands made by slot deletion, through the plain and validated entry points (HandRank and value-and-hand entry points on a fixed quarter); single-suit hands in all slot orders; twin call histories; two build profiles', None), 'C10': ('runtime reference-model monitor: all 2^32 words through the card filter, 52 constants, 70 constructor pairs, all accessors, interleaved word/card call histories; two build profiles', None), 'C11': ('runtime reference-model monitor: 52x52 card order, sorting vs an independent insertion sort on all arrangements of a hostile 8-word alphabet, all word pairs one or two bits apart, seeded hands; two build profiles; Miri smoke leg', None), 'C12': ('runtime reference-model monitor: all 1,112,064 Unicode scalars through the symbol tables and inside hand texts of every size; structured, column-aligned, shortest-by-token-length-pattern, long and seeded texts and look-alike token sequences through every parser under catch_unwind; two build profiles; Miri smoke leg', None), 'C13': ('runtime reference-model monitor: four predicates on all 2,598,960 hands in all 120 slot orders vs suits/ranks by the rules and vs the ranked category; two build profiles', None), 'C14': ('runtime reference-model monitor: all 2^32 words word->bit, all 1..4(5)-bit, field-structured and seeded 64-bit values plus 4e10 (thorough 6e11) uniform values bit->word, 104 constants, interleaved call histories; two build profiles', None), 'C15': ('runtime model-based history monitor: peel sequences to exhaustion vs bit arithmetic; set algebra on structured and seeded sets; hands and texts (all Unicode separators, up to 240 tokens) to sets; two build profiles', None), 'C16': ('runtime reference-model monitor over all one-/two-(three-)bit sets, card bits x every subset of the non-card bits, field-structured sets, seeded sets of every population count, each converted twice in a row, under catch_unwind; two build profiles', None), 'C17': ('runtime reference-model monitor over all 2,652 ordered pairs and all 2,652 x 2,652 two-call histories, chains of five suit shifts, every constructor of the hand (incl. setter-built), oracle in integer half-points; two build profiles', None), 'C18': ('runtime invariant check at a quiescent point on constant data: every table entry vs the set of combinations it should enumerate; Deck::get on index classes (incl. indexes that wrap under small multipliers and field-structured indexes) and two-call histories; two build profiles', None), 'C19': ('runtime history monitor against an array model, compared after every operation: unique-word, repeated-word, card-shaped-word, consistently-marked, rank-completing and real-card histories; every five-card hand through every constructor; every selection tuple on class-covering containers; two build profiles; Miri smoke leg', None), 'C20': ('runtime reference-model monitor: 52 cards x all 121 mark sequences, accessors, strip, order vs all unmarked and marked words; two build profiles', None)}
 for _pid, (_tech, _text) in AS_BUILT.items():
     PROPS[_pid]["technique"] = _tech
     if _text:
